@@ -326,3 +326,10 @@ func (r *rows) Close() error                    { return nil }
 func (r *rows) Err() error                      { return nil }
 
 var _ chdrv.Conn = (*Conn)(nil)
+
+// NoLog satisfies qryn's ctrl/logger.ILogger and drops everything.
+type NoLog struct{}
+
+func (NoLog) Error(...any) {}
+func (NoLog) Debug(...any) {}
+func (NoLog) Info(...any)  {}
